@@ -1,0 +1,69 @@
+//! Read-only views of the representation and of the private primitives, for
+//! external verification tooling.  Only built with `--cfg droundy_tinyset_verif`;
+//! nothing here is part of the crate's API.
+
+use super::*;
+
+/// A copy of the in-memory representation of a set: the tagged word and, for a
+/// heap set, `(sz, cap, bits, buckets)` as `internal()` sees them.
+#[derive(Debug, Clone, PartialEq, Eq)]
+pub struct VerifRepr {
+    /// The word the set consists of.
+    pub word: usize,
+    /// Header fields and a copy of the array, if the word is a pointer.
+    pub heap: Option<(usize, usize, u32, Vec<u32>)>,
+}
+
+impl SetU32 {
+    /// A copy of the representation (never modifies the set).
+    pub fn verif_repr(&self) -> VerifRepr {
+        let word = self.0 as usize;
+        let heap = match self.internal() {
+            Internal::Empty | Internal::Stack(_) => None,
+            Internal::Heap { s, a } => Some((s.sz as usize, s.cap as usize, s.bits, a.to_vec())),
+            Internal::Big { s, a } => Some((s.sz as usize, s.cap as usize, s.bits, a.to_vec())),
+            Internal::Dense { sz, a } => {
+                let b = unsafe { &(*self.0).b };
+                Some((sz as usize, b.cap as usize, b.bits, a.to_vec()))
+            }
+        };
+        VerifRepr { word, heap }
+    }
+}
+
+/// `p_lookfor`: 0 = empty spot, 1 = key found, 2 = need insert.
+pub fn p_lookfor(k: u32, a: &[u32], offset: u32) -> (u8, usize) {
+    match super::p_lookfor(k, a, offset) {
+        LookedUp::EmptySpot(i) => (0, i),
+        LookedUp::KeyFound(i) => (1, i),
+        LookedUp::NeedInsert => (2, 0),
+    }
+}
+/// `p_insert`
+pub fn p_insert(k: u32, a: &mut [u32], offset: u32) -> usize {
+    super::p_insert(k, a, offset)
+}
+/// `p_remove`
+pub fn p_remove(k: u32, a: &mut [u32], offset: u32) -> bool {
+    super::p_remove(k, a, offset)
+}
+/// `compute_array_bits`
+pub fn compute_array_bits(mx: u32) -> u32 {
+    super::compute_array_bits(mx)
+}
+/// `Tiny::new`, as the inline word.
+pub fn tiny_new(v: &[u32]) -> Option<usize> {
+    Tiny::new(v.to_vec()).map(|t| t.to_usize())
+}
+/// `Tiny::insert` on an inline word.
+pub fn tiny_insert(word: usize, e: u32) -> Option<usize> {
+    Tiny::from_usize(word).insert(e).map(|t| t.to_usize())
+}
+/// `Tiny::contains` on an inline word.
+pub fn tiny_contains(word: usize, e: u32) -> bool {
+    Tiny::from_usize(word).contains(e)
+}
+/// The members of an inline word, by `Tiny`'s iterator.
+pub fn tiny_items(word: usize) -> Vec<u32> {
+    Tiny::from_usize(word).collect()
+}
